@@ -121,7 +121,7 @@ func parseRecord(line []byte) (*auditRecord, error) {
 	}
 	var r auditRecord
 	dec := json.NewDecoder(bytes.NewReader(line))
-	dec.DisallowUnknownFields()
+	// additional fields are fine: the property names the ones a record must carry
 	if err := dec.Decode(&r); err != nil {
 		return nil, fmt.Errorf("%v in %q", err, line)
 	}
